@@ -696,8 +696,42 @@ fn z_or(y: usize, z: usize, rng: &mut Rng) -> usize {
     }
 }
 
+/// The rate formula is pinned by the decimals offset and the asset: each can be set exactly once (an
+/// offset of 0 included), whatever comes afterwards is refused and changes nothing.
+fn configured_once(cfg: &Cfg, rep: &mut Report) {
+    let h = 90_000u64;
+    if cfg.shard != 4 % cfg.nshards || !cfg.runs(h) {
+        return;
+    }
+    rep.begin_history(h);
+    let w = World::new(100, 16);
+    let e = &w.env;
+    e.mock_all_auths();
+    let (a1, a2) = (w.account(), w.account());
+    for first in [0u32, 1, 6, 10] {
+        for second in [0u32, 3, 10, 11] {
+            let c = e.register(crate::contracts::tokens::VaultLate, ());
+            let too_big: Result<(), Fail> = invoke(e, &c, "set_offset", args!(e, 11u32));
+            let r1: Result<(), Fail> = invoke(e, &c, "set_offset", args!(e, first));
+            let r2: Result<(), Fail> = invoke(e, &c, "set_offset", args!(e, second));
+            let now: u32 = invoke(e, &c, "offset", args!(e)).must("offset");
+            rep.evaluations += 4;
+            rep.case(format!("vault-config/offset/first={first}/second={second}/{}", tag(&r2)));
+            rep.check("ref", too_big.is_err() && r1.is_ok(), "C05/ref/vault-config/set_decimals_offset/outcome", || format!("offset 11 -> {too_big:?}, then first set to {first} -> {r1:?}"));
+            rep.check("ref", r2.is_err() && now == first, "C05/ref/vault-config/decimals-offset-set-twice", || format!("offset set to {first}, then to {second}: second call {r2:?}, offset now {now}"));
+            let s1: Result<(), Fail> = invoke(e, &c, "set_asset", args!(e, a1.clone()));
+            let s2: Result<(), Fail> = invoke(e, &c, "set_asset", args!(e, if second % 2 == 0 { a2.clone() } else { a1.clone() }));
+            let q: Address = invoke(e, &c, "asset", args!(e)).must("asset");
+            rep.check("ref", s1.is_ok() && s2.is_err() && q == a1, "C05/ref/vault-config/asset-set-twice", || format!("set_asset twice: {s1:?}, {s2:?}; asset is the first one: {}", q == a1));
+        }
+    }
+    rep.count("vault_configured_once_cases");
+    rep.end_history();
+}
+
 pub fn run(cfg: &Cfg, rep: &mut Report) {
-    rep.rule = "Seeded histories on the real fungible-vault example over a Base asset token, one instance per decimals offset 0..=10 (every offset in every shard): deposit/mint/withdraw/redeem (self and via operator allowance), share transfers, direct asset donations, asset mints; amounts from {0,1,2,3,7,10^k+-1} and the neighbours of balances, max_withdraw, total assets and allowances, a quarter of the histories with amounts up to 2^126; a few histories under exact authorization (nobody takes out another participant's shares without that participant's or an approved operator's signature). Distinct case = (offset, entry point, vault state {empty,fresh,skewed by donation}, amount class, inexact division?, outcome).".into();
+    rep.rule = "Seeded histories on the real fungible-vault example over a Base asset token, one instance per decimals offset 0..=10 (every offset in every shard): deposit/mint/withdraw/redeem (self and via operator allowance), share transfers, direct asset donations, asset mints; amounts from {0,1,2,3,7,10^k+-1} and the neighbours of balances, max_withdraw, total assets and allowances, a quarter of the histories with amounts up to 2^126; the offset and the asset can each be set exactly once (an offset of 0 included); a few histories under exact authorization (nobody takes out another participant's shares without that participant's or an approved operator's signature). Distinct case = (offset, entry point, vault state {empty,fresh,skewed by donation}, amount class, inexact division?, outcome).".into();
+    configured_once(cfg, rep);
     let per_off = cfg.pick(4u64, 30);
     let steps = cfg.pick(150usize, 300);
     for off in 0..=10u32 {
